@@ -3,42 +3,55 @@
 (* Exhaustive design check for C02 / C05.  TLC GROWS every architecture of *)
 (* the bounded grammar node by node, seals it, and SELECTS a configuration *)
 (* (candidate precision tuples) together with a winner for every quantiser *)
-(* group.  The invariants are evaluated in every selected state; every     *)
-(* selected state is afterwards replayed on a real MPS model by the        *)
-(* harness (harness/mps_gen.py).                                           *)
+(* group; optionally it then walks HISTORIES of calls (forward passes in   *)
+(* the three sampling modes, coefficient loads without a forward pass,     *)
+(* observers) that decide which assignment the sampled coefficients theta  *)
+(* encode when the cost is read.  The invariants are evaluated in every    *)
+(* selected state; the selected states are afterwards replayed on real MPS *)
+(* models by the harness (harness/mps_gen.py).                             *)
 (***************************************************************************)
 EXTENDS MPSLife
 
-CONSTANTS MaxNodes,          \* operator nodes per architecture
+CONSTANTS Dim,               \* 1 | 2
+          MaxNodes,          \* operator nodes per architecture
           MinNodes,          \* only architectures with at least this many nodes are selected
           Widths, LinWidths, \* output widths of conv / linear layers
           Ks,                \* kernel sizes of non-depthwise convs
           BNs,               \* subset of BOOLEAN: may a layer be followed by a BatchNorm
           C0, Sp0,           \* input channels / spatial size
           AllowRelu, AllowPool, AllowAdd, AllowDw,
-          TupMode,           \* which configurations: "one" | "pairs" | "few" | "pc" | "ne16"
+          AllowReuse,        \* may a conv / lin node invoke the layer object of an earlier node again
+          TupMode,           \* which configurations: "one" | "pairs" | "few" | "pc" | "pc1" | "ne16"
           WType,             \* "pl" | "pc"
           SelMode,           \* "all" | "rot" : every winner function / three rotations per configuration
-          Lin,               \* "pinned" | "fixed" : MPSLinear.get_modified_vars (finding F04)
-          GuardF40, GuardF05 \* BOOLEAN: exempt the scenarios of the listed findings
+          MaxHist,           \* length of the call histories explored after the selection (0: none)
+          Walk,              \* "pinned" | "fixed" : register_in_mps_quantizers (finding F40, repaired)
+          Lin,               \* "pinned" | "fixed" : MPSLinear.get_modified_vars (finding F04, repaired)
+          GuardF40, GuardF05, GuardReuse   \* BOOLEAN: exempt the scenarios of the listed findings
 
-VARIABLES arch, phase, gs, cfg, sel
+VARIABLES arch, phase, gs, cfg, sel,
+          smp,     \* the assignment the sampled coefficients (theta_alpha buffers) encode
+          fresh,   \* "soft"  : theta was never sampled one-hot (a new model: the conversion samples the fresh
+                   \*           MPS modules in training mode, i.e. soft) - nothing is claimed about the cost
+                   \* "fresh" : theta is the arg-max one-hot of the CURRENT coefficients
+                   \* "stale" : theta is a one-hot sampled earlier / with Gumbel noise
+          hist     \* calls made since the selection
 
-vars == <<arch, phase, gs, cfg, sel>>
+vars == <<arch, phase, gs, cfg, sel, smp, fresh, hist>>
 
-Node(op, ins, out, k, dw, bn) ==
+Node(op, ins, out, k, dw, bn, ru) ==
     [op |-> op, ins |-> ins, out |-> out, k |-> k, d |-> 1, s |-> 1, bias |-> TRUE, bn |-> bn,
-     dw |-> dw, excl |-> FALSE, causal |-> FALSE, reuse |-> 0]
+     dw |-> dw, excl |-> FALSE, causal |-> (Dim = 1 /\ op = "conv"), reuse |-> ru]
 
 NoCfg == [pin |-> <<>>, pa |-> <<>>, pw |-> <<>>, wt |-> WType]
 NoSel == [a |-> <<>>, w |-> <<>>]
-NoGS  == [rep |-> <<>>, flt |-> {}, qp |-> <<>>, asis |-> <<>>]
+NoGS  == [rep |-> <<>>, rep0 |-> <<>>, flt |-> {}, qp |-> <<>>, asis |-> <<>>]
 
-Init == /\ arch = [dim |-> 2, c0 |-> C0, sp |-> Sp0, nodes |-> <<>>]
+Init == /\ arch = [dim |-> Dim, c0 |-> C0, sp |-> Sp0, nodes |-> <<>>]
         /\ phase = "grow"
         /\ gs = NoGS
         /\ cfg = NoCfg
-        /\ sel = NoSel
+        /\ sel = NoSel /\ smp = NoSel /\ fresh = "soft" /\ hist = <<>>
 
 T(a)  == 0..N(a)
 NF(a) == {t \in T(a) : ~IsFlat(a, t)}
@@ -46,24 +59,35 @@ Compatible(a, p, q) == Ch(a, p) = Ch(a, q) /\ Sp(a, p) = Sp(a, q) /\ IsFlat(a, p
 \* (the same ordered pair is not added twice: plinio names the MPSAdd module after its operands)
 AddPairs(a) == {pq \in T(a) \X T(a) : /\ pq[1] # pq[2] /\ Compatible(a, pq[1], pq[2])
                                       /\ ~\E n \in 1..N(a) : Op(a, n) = "add" /\ Ins(a, n) = <<pq[1], pq[2]>>}
+\* MPS folds Conv2d-BN and Linear-BN only: 1-D convs are generated without BatchNorm
+ConvBNs == IF Dim = 1 THEN {FALSE} ELSE BNs
+\* invoke the layer object of node m again, on a tensor with the same number of input features
+\* (a conv may see another spatial size: the output shape is a property of the call site)
+ReuseCands(a) ==
+    UNION {{[Nd(a, m) EXCEPT !.ins = <<p>>, !.reuse = m] :
+                p \in {t \in T(a) : /\ t # In1(a, m) /\ IsFlat(a, t) = IsFlat(a, In1(a, m))
+                                    /\ Ch(a, t) = Ch(a, In1(a, m))}} :
+           m \in {x \in Layers(a) : Nd(a, x).reuse = 0}}
 
 Candidates(a) ==
-    {Node("conv", <<p>>, w, k, FALSE, b) : p \in NF(a), w \in Widths, k \in Ks, b \in BNs}
-    \cup (IF AllowDw THEN {Node("conv", <<p>>, 0, 3, TRUE, b) : p \in NF(a), b \in BNs} ELSE {})
-    \cup {Node("lin", <<p>>, w, 1, FALSE, b) : p \in T(a) \ NF(a), w \in LinWidths, b \in BNs}
-    \cup (IF AllowRelu THEN {Node("relu", <<p>>, 0, 1, FALSE, FALSE) : p \in {t \in T(a) \ {0} : Op(a, t) # "relu"}} ELSE {})
-    \cup (IF AllowPool THEN {Node("pool", <<p>>, 0, 1, FALSE, FALSE) : p \in {t \in NF(a) \ {0} : Sp(a, t) >= 2}} ELSE {})
-    \cup {Node("flat", <<p>>, 0, 1, FALSE, FALSE) : p \in NF(a) \ {0}}
-    \cup (IF AllowAdd THEN {Node("add", <<pq[1], pq[2]>>, 0, 1, FALSE, FALSE) : pq \in AddPairs(a)} ELSE {})
+    {Node("conv", <<p>>, w, k, FALSE, b, 0) : p \in NF(a), w \in Widths, k \in Ks, b \in ConvBNs}
+    \cup (IF AllowDw THEN {Node("conv", <<p>>, 0, 3, TRUE, b, 0) : p \in NF(a), b \in ConvBNs} ELSE {})
+    \cup {Node("lin", <<p>>, w, 1, FALSE, b, 0) : p \in T(a) \ NF(a), w \in LinWidths, b \in BNs}
+    \cup (IF AllowRelu THEN {Node("relu", <<p>>, 0, 1, FALSE, FALSE, 0) : p \in {t \in T(a) \ {0} : Op(a, t) # "relu"}} ELSE {})
+    \cup (IF AllowPool THEN {Node("pool", <<p>>, 0, 1, FALSE, FALSE, 0) : p \in {t \in NF(a) \ {0} : Sp(a, t) >= 2}} ELSE {})
+    \cup {Node("flat", <<p>>, 0, 1, FALSE, FALSE, 0) : p \in NF(a) \ {0}}
+    \cup (IF AllowAdd THEN {Node("add", <<pq[1], pq[2]>>, 0, 1, FALSE, FALSE, 0) : pq \in AddPairs(a)} ELSE {})
+    \cup (IF AllowReuse THEN ReuseCands(a) ELSE {})
 
 Grow == /\ phase = "grow" /\ N(arch) < MaxNodes
         /\ \E nd \in Candidates(arch) : arch' = [arch EXCEPT !.nodes = Append(@, nd)]
-        /\ UNCHANGED <<phase, gs, cfg, sel>>
+        /\ UNCHANGED <<phase, gs, cfg, sel, smp, fresh, hist>>
 
 Used(a, t) == \E n \in 1..N(a) : t \in SeqSet(Ins(a, n))
 Sealable(a) == /\ N(a) >= MinNodes /\ N(a) >= 1
                /\ \A t \in 0..(N(a) - 1) : Used(a, t)
                /\ Layers(a) # {}
+               /\ (AllowReuse => \E L \in Layers(a) : Reused(a, L))
 \* the per-channel (pruning) configurations are run on architectures whose searchable layers are not tied to
 \* the network input, whose groups have one width, and that end in a layer
 PcOk(g, a) == ~InputConnected(g, a) /\ ~MixedWidth(g, a) /\ IsLayer(a, N(a))
@@ -84,6 +108,9 @@ Configs == {[pin |-> t[1], pa |-> t[2], pw |-> t[3], wt |-> WType] : t \in Tuple
 RankIn(S, g) == Cardinality({x \in S : x < g})
 RotA(g, a, c, k) == [x \in AGroups(g, a) |-> ((RankIn(AGroups(g, a), x) + k) % Len(ATuple(a, c, x))) + 1]
 RotW(g, a, c, k) == [x \in WGroups(g, a) |-> ((RankIn(WGroups(g, a), x) + 2 * k + 1) % Len(WTuple(g, c, x))) + 1]
+RotWpc(g, a, c, k) == [x \in WGroups(g, a) |->
+                          [ch \in 1..GroupWidth(g, a, x) |-> ((ch + k + RankIn(WGroups(g, a), x)) % Len(WTuple(g, c, x))) + 1]]
+RotSel(g, a, c, k) == [a |-> RotA(g, a, c, k), w |-> IF c.wt = "pl" THEN RotW(g, a, c, k) ELSE RotWpc(g, a, c, k)]
 AllA(g, a, c)   == {f \in [AGroups(g, a) -> 1..3] : \A x \in AGroups(g, a) : f[x] <= Len(ATuple(a, c, x))}
 AllWpl(g, a, c) == {f \in [WGroups(g, a) -> 1..3] : \A x \in WGroups(g, a) : f[x] <= Len(WTuple(g, c, x))}
 ChanMaps(g, a, c, x) == [1..GroupWidth(g, a, x) -> 1..Len(WTuple(g, c, x))]
@@ -92,60 +119,93 @@ AllWpc(g, a, c) == {f \in [WGroups(g, a) -> UNION {ChanMaps(g, a, c, x) : x \in 
 Sels(g, a, c) ==
     IF WType = "pl"
     THEN IF SelMode = "all" THEN {[a |-> fa, w |-> fw] : fa \in AllA(g, a, c), fw \in AllWpl(g, a, c)}
-         ELSE {[a |-> RotA(g, a, c, k), w |-> RotW(g, a, c, k)] : k \in 0..2}
+         ELSE {RotSel(g, a, c, k) : k \in 0..2}
     ELSE {[a |-> RotA(g, a, c, k), w |-> fw] : k \in 0..1, fw \in AllWpc(g, a, c)}
 
 Seal == /\ phase = "grow" /\ Sealable(arch)
-        /\ gs' = GS(arch)
+        /\ gs' = GS(Walk, arch)
         /\ phase' = "sealed"
-        /\ UNCHANGED <<arch, cfg, sel>>
+        /\ UNCHANGED <<arch, cfg, sel, smp, fresh, hist>>
 
+\* Select = construct the model and WRITE the coefficients of the selection (theta is still the soft sample of
+\* the conversion); InvCostExact etc. describe the model after one forward pass in eval / hard mode
 Select == /\ phase = "sealed"
           /\ (WType = "pc" => PcOk(gs, arch))
-          /\ \E c \in Configs : \E s \in Sels(gs, arch, c) : cfg' = c /\ sel' = s
+          /\ \E c \in Configs : \E s \in Sels(gs, arch, c) :
+                cfg' = c /\ sel' = s /\ smp' = s
+          /\ fresh' = "soft" /\ hist' = <<>>
           /\ phase' = "sel"
           /\ UNCHANGED <<arch, gs>>
 
-Next == Grow \/ Seal \/ Select
+(* ------------------------------ call histories --------------------------- *)
+(* fwd_eval  : forward pass in eval mode            -> theta = one-hot(arg-max alpha)                 *)
+(* fwd_hard  : training, hard_softmax, plain soft-max sampler -> the same                             *)
+(* fwd_ghard : training, hard Gumbel soft-max       -> theta = one-hot of ANY candidate (noise)       *)
+(* load      : load_state_dict / write of other coefficients, no forward -> theta unchanged (stale)   *)
+(* export, summary, upd (update_softmax_options(temperature)) : observers, theta unchanged            *)
+Acts == {"fwd_eval", "fwd_hard", "fwd_ghard", "load", "export", "summary", "upd"}
+Step(act) ==
+    /\ phase = "sel" /\ Len(hist) < MaxHist
+    /\ hist' = Append(hist, act)
+    /\ CASE act \in {"fwd_eval", "fwd_hard"} -> sel' = sel /\ smp' = sel /\ fresh' = "fresh"
+         [] act = "fwd_ghard" -> /\ sel' = sel /\ fresh' = "stale"
+                                 /\ \E k \in 0..2 : smp' = RotSel(gs, arch, cfg, k)
+         [] act = "load"      -> /\ fresh' = IF fresh = "soft" THEN "soft" ELSE "stale"
+                                 /\ \E k \in 0..2 : sel' = RotSel(gs, arch, cfg, k) /\ sel' # sel
+                                 /\ smp' = IF fresh = "soft" THEN sel' ELSE smp
+         [] OTHER             -> UNCHANGED <<sel, smp, fresh>>
+    /\ UNCHANGED <<arch, phase, gs, cfg>>
+
+Next == Grow \/ Seal \/ Select \/ \E act \in Acts : Step(act)
 Spec == Init /\ [][Next]_vars
 
 \* the label propagation computes the components of FeatGraph (checked on every sealed architecture)
-InvRepIsRep == phase = "sealed" => \A n \in 0..(N(arch) + 1) : gs.rep[n] = Rep(arch, n)
+InvRepIsRep == phase = "sealed" => \A n \in 0..(N(arch) + 1) : gs.rep0[n] = Rep(arch, n)
 
 Selected == phase = "sel"
+Exempt40(L) == (GuardF40 /\ F40Layer(gs, arch, L)) \/ (GuardReuse /\ ReuseSplit(gs, arch, L))
 
 (* ------------------------------ C02 ------------------------------------- *)
-\* the input precision of a layer is the output precision selected for the tensor it consumes
+\* the input precision of a layer is the output precision selected for the tensor it consumes, AT EVERY CALL SITE
 InvPlumb ==
     Selected => \A L \in Layers(arch) :
-        (GuardF40 /\ F40Layer(gs, arch, L))
-        \/ InBits("asis", gs, arch, cfg, sel, L) = InBits("ref", gs, arch, cfg, sel, L)
+        Exempt40(L) \/ InBits("asis", gs, arch, cfg, sel, L) = InBits("ref", gs, arch, cfg, sel, L)
 \* ... for EVERY selection, i.e. the two quantisers are one group
 InvPlumbGroups ==
     Selected => \A L \in Layers(arch) :
-        (GuardF40 /\ F40Layer(gs, arch, L))
-        \/ AGroup(gs, arch, gs.asis[L]) = AGroup(gs, arch, RefIn(gs, arch, L))
+        Exempt40(L) \/ AGroup(gs, arch, gs.asis[L]) = AGroup(gs, arch, RefIn(gs, arch, L))
 \* design rationale of the groups: both operands of an add are on the same grid
 InvAddSameGrid ==
     Selected => \A n \in 1..N(arch) : Op(arch, n) = "add" =>
-        (GuardF40 /\ InputConnected(gs, arch))
+        (InputConnected(gs, arch))          \* the network-input quantiser is not a member of the placeholder's component
+        \/ (GuardReuse /\ \E L \in Layers(arch) : ReuseSplit(gs, arch, L))
         \/ OutBits(gs, arch, cfg, sel, gs.qp[Ins(arch, n)[1]]) = OutBits(gs, arch, cfg, sel, gs.qp[Ins(arch, n)[2]])
 \* the tensor that leaves the network is not quantised
-InvOutputFloat == Selected => OutBits(gs, arch, cfg, sel, gs.qp[N(arch)]) = Float
+InvOutputFloat == Selected => \/ GuardReuse /\ \E L \in Layers(arch) : ReuseSplit(gs, arch, L)
+                              \/ OutBits(gs, arch, cfg, sel, gs.qp[N(arch)]) = Float
 
 (* ------------------------------ C05 ------------------------------------- *)
 Metrics == IF WType = "pc" THEN {"params_bit", "ops_bit"} ELSE BitMetrics
-InvCostExact ==
-    Selected =>
-    LET wb == [L \in Layers(arch) |-> WBits(gs, arch, cfg, sel, L)] IN
-    \A L \in Layers(arch) : \A m \in Metrics :
-        LET ab == InBits("asis", gs, arch, cfg, sel, L)
+\* the cost read when theta encodes assignment s (one-hot coefficients): as implemented = exact cost of s
+CostExactFor(s) ==
+    LET wb == [L \in Layers(arch) |-> WBits(gs, arch, cfg, s, L)] IN
+    \A m \in Metrics : \A L \in CostSites(m, arch) :
+        LET ab == InBits("asis", gs, arch, cfg, s, L)
             tp == WTuple(gs, cfg, WGroup(gs, L))
             pc == WType = "pc"
         IN  (\A j \in DOMAIN tp : Applicable(m, arch, L, tp[j], ab)) =>
             \/ GuardF05 /\ F05Layer(arch, L, wb, tp, pc)
             \/ AsisNum(m, Lin, arch, L, wb, ab, tp, pc)
                    = ExactInt(m, arch, L, wb[L], ab, InEffW(arch, wb, L)) * AsisDen(wb, L)
+\* after a forward pass in eval / hard mode (theta = arg-max of the selection)
+InvCostExact == Selected => CostExactFor(sel)
+\* in EVERY state of every history the cost is the exact cost of the assignment theta encodes ...
+InvCostTheta == (Selected /\ MaxHist > 0 /\ fresh # "soft") => CostExactFor(smp)
+\* ... and that assignment is the one summary() reports whenever the last sampling was an arg-max of the
+\* current coefficients (forward in eval or hard mode after the last coefficient write)
+InvFreshIsSummary == (Selected /\ fresh = "fresh") => smp = sel
+\* the state of theta is a function of the history alone (MPSLife!ThetaState, used by the trace spec)
+InvFreshDef == Selected => fresh = ThetaState(hist)
 \* the cost function is shown the effective feature counts under the PyTorch names of the layer type
 InvSpecKeys ==
     Selected =>
@@ -160,4 +220,9 @@ InvPruneLowers ==
     \A L \in Layers(arch) : ~IsDw(arch, L) =>
         ExactInt("params_bit", arch, L, wb[L], 8, InEffW(arch, wb, L))
             <= ExactInt("params_bit", arch, L, wb[L], 8, StaticIn(arch, L))
+\* a per-invocation metric charges every call site with the geometry of THAT call site
+InvPerInvocation ==
+    Selected => \A L \in Layers(arch) : Reused(arch, L) =>
+        /\ L \in CostSites("ops_bit", arch)
+        /\ (L # Owner(arch, L) => L \notin CostSites("params_bit", arch))
 =============================================================================
